@@ -405,7 +405,6 @@ func c09sign(p *Prog, r *Report) {
 	}
 }
 
-
 // C09.reset: the block adopted by fast-forward is the one case where a whole signature map
 // arrives from the network. Before hg.Reset stores it, the map must be replaced by one that is
 // filled only under the membership test and Block.Verify==true.
